@@ -223,5 +223,13 @@ def stepOp (b : SBag) : Op → Option SBag × String
     if !ok then (some b, "err" ++ mapStatus []) else
     (some { b with rows := b.rows.zipIdx.map fun (r, i) => (names.getD i r.1, r.2) },
      "ok" ++ mapStatus (renameMap b.names names []))
+  | .setAlpha a =>
+    -- only the nucleotide or the amino-acid alphabet can be given, and only when the sequences fit it: the
+    -- alphabet detected from all residues (`detectAlphabetBag`, the published tables) is that one or "both";
+    -- anything else is an error and nothing changes
+    let d := detectAlphabetBag (b.rows.map Prod.snd)
+    if a == 1 && (d == NUCLEOTIDS || d == BOTH) then (some { b with alphabet := NUCLEOTIDS }, "ok")
+    else if a == 0 && (d == AMINOACIDS || d == BOTH) then (some { b with alphabet := AMINOACIDS }, "ok")
+    else (some b, "err")
 
 end Gv.Spec
